@@ -10,7 +10,7 @@
      nai    octet strings of several lengths
      pei    IMEI / IMEISV: every position x every digit around two base numbers; generic packing for 1..17 digits *)
 EXTENDS Identity, TLC
-CONSTANTS Regions, RiDigits, PlmnMccs
+CONSTANTS Regions, RiDigits, PlmnMccs, Deep      \* Deep = FALSE trims the guti / suci cross products (quick tier)
 VARIABLES fam, x
 vars == <<fam, x>>
 AllMcc   == 0..999
@@ -90,7 +90,7 @@ STmsiLaw(s) ==
   /\ t = HexText(SubSeq(w, 2, 7))
   /\ \A i \in 1..12 : ~STmsiFromText(Corrupt(t, i, G)).ok
 
-SuciLaw(s) ==
+SuciLaw(s, corrupt) ==          \* corrupt: also try every single-character corruption of the text (costly)
   LET w == SuciToWire(s)  rw == SuciFromWire(w)
       t == SuciToText(s)  rt == SuciFromText(t) IN
   /\ SuciOK(s)
@@ -99,8 +99,8 @@ SuciLaw(s) ==
   /\ SuciToWire(rt.v) = w /\ SuciToText(rw.v) = t
   /\ (s.fmt = 0 => (Len(w) >= 9 /\ w[1] = 1 /\ w[7] = s.scheme /\ w[8] = s.pki))
   /\ (s.fmt = 1 => (Len(w) >= 2 /\ w[1] = 17))
-  /\ \A i \in 1..Len(t) : ~SuciFromText(Corrupt(t, i, G)).ok
-  /\ \A i \in 1..Len(t) : t[i] # Dash => ~SuciFromText(Corrupt(t, i, Dash)).ok
+  /\ corrupt => \A i \in 1..Len(t) : ~SuciFromText(Corrupt(t, i, G)).ok
+  /\ corrupt => \A i \in 1..Len(t) : t[i] # Dash => ~SuciFromText(Corrupt(t, i, Dash)).ok
 
 PeiLaw(p) ==
   LET w == PeiToWire(p)  rw == PeiFromWire(w)
@@ -140,18 +140,17 @@ ASSUME GutiToWire([plmn |-> P(<<2,0,8>>, <<9,3>>), amf |-> <<202, 1016, 0>>, tms
 
 \* ------------------------------------------------------------------ enumeration tree
 Idx(s) == 1..Len(s)
+Sub(s, small) == IF Deep THEN 1..Len(s) ELSE small
 Init == fam = "root" /\ x = <<>>
 Fams == {"plmn", "amf", "guti", "stmsi", "suci", "nai", "pei", "pack"}
 Next ==
   \/ fam = "root" /\ \E f \in Fams : fam' = f /\ x' = <<>>
-  \/ fam = "plmn" /\ x = <<>> /\ \E m \in PlmnMccs : x' = <<m>> /\ UNCHANGED fam
-  \/ fam = "plmn" /\ Len(x) = 1 /\ \E i \in 0..1099 : x' = <<x[1], i>> /\ UNCHANGED fam
-  \/ fam = "amf" /\ x = <<>> /\ \E r \in Regions, s \in 0..1023 : x' = <<r, s>> /\ UNCHANGED fam
-  \/ fam = "amf" /\ Len(x) = 2 /\ \E p \in 0..63 : x' = <<x[1], x[2], p>> /\ UNCHANGED fam
-  \/ fam = "guti" /\ x = <<>> /\ \E i \in Idx(PlmnB), r \in Idx(RegB) : x' = <<i, r>> /\ UNCHANGED fam
-  \/ fam = "guti" /\ Len(x) = 2 /\ \E s \in Idx(SetB), p \in Idx(PtrB), m \in Idx(TmsiB) : x' = <<x[1], x[2], s, p, m>> /\ UNCHANGED fam
+  \/ fam = "plmn" /\ x = <<>> /\ \E m \in PlmnMccs : x' = <<m>> /\ UNCHANGED fam             \* the leaf quantifies over all 1100 MNCs
+  \/ fam = "amf" /\ x = <<>> /\ \E r \in Regions, s \in 0..1023 : x' = <<r, s>> /\ UNCHANGED fam  \* the leaf quantifies over all 64 pointers
+  \/ fam = "guti" /\ x = <<>> /\ \E i \in Idx(PlmnB), r \in Sub(RegB, {1, 5, 6}) : x' = <<i, r>> /\ UNCHANGED fam
+  \/ fam = "guti" /\ Len(x) = 2 /\ \E s \in Idx(SetB), p \in Sub(PtrB, {1, 2, 6}), m \in Sub(TmsiB, {1, 2, 6, 8, 9}) : x' = <<x[1], x[2], s, p, m>> /\ UNCHANGED fam
   \/ fam = "stmsi" /\ x = <<>> /\ \E s \in Idx(SetB), p \in Idx(PtrB), m \in Idx(TmsiB) : x' = <<s, p, m>> /\ UNCHANGED fam
-  \/ fam = "suci" /\ x = <<>> /\ \E i \in Idx(PlmnB), ri \in RiAll : x' = <<i, ri>> /\ UNCHANGED fam
+  \/ fam = "suci" /\ x = <<>> /\ \E i \in Sub(PlmnB, {1, 2, 3, 4}), ri \in RiAll : x' = <<i, ri>> /\ UNCHANGED fam
   \/ fam = "suci" /\ Len(x) = 2 /\ \E sc \in Idx(SchemeB), k \in Idx(PkiB) :
         \E o \in (IF SchemeB[sc] = 0 THEN MsinB ELSE OutB) : x' = <<x[1], x[2], SchemeB[sc], PkiB[k], o>> /\ UNCHANGED fam
   \/ fam = "nai" /\ x = <<>> /\ \E o \in NaiB : x' = <<o>> /\ UNCHANGED fam
@@ -164,12 +163,12 @@ SuciAt(y) == [fmt |-> 0, plmn |-> PlmnB[y[1]], ri |-> y[2], scheme |-> y[3], pki
 PeiAt(y)  == [kind |-> y[1], digits |-> [(IF y[1] = "imei" THEN ImeiBase ELSE ImeisvBase) EXCEPT ![y[2]] = y[3]]]
 
 Laws ==
-  CASE fam = "plmn" /\ Len(x) = 2 -> PlmnLaw(P(Num3(x[1]), MncOf(x[2])))
-    [] fam = "amf" /\ Len(x) = 3  -> AmfLaw(x)
+  CASE fam = "plmn" /\ Len(x) = 1 -> \A i \in 0..1099 : PlmnLaw(P(Num3(x[1]), MncOf(i)))
+    [] fam = "amf" /\ Len(x) = 2  -> \A p \in 0..63 : AmfLaw(<<x[1], x[2], p>>)
     [] fam = "guti" /\ Len(x) = 5 -> GutiLaw(GutiAt(x))
     [] fam = "stmsi" /\ Len(x) = 3 -> STmsiLaw([set |-> SetB[x[1]], pointer |-> PtrB[x[2]], tmsi |-> TmsiB[x[3]]])
-    [] fam = "suci" /\ Len(x) = 5 -> SuciLaw(SuciAt(x))
-    [] fam = "nai" /\ Len(x) = 1  -> SuciLaw(Nai(x[1]))
+    [] fam = "suci" /\ Len(x) = 5 -> SuciLaw(SuciAt(x), x[1] <= 2 /\ x[4] = 255)
+    [] fam = "nai" /\ Len(x) = 1  -> SuciLaw(Nai(x[1]), TRUE)
     [] fam = "pei" /\ Len(x) = 3  -> PeiLaw(PeiAt(x))
     [] fam = "pack" /\ Len(x) = 1 -> PackLaw(x[1]) /\ BcdLaw(x[1])
     [] OTHER -> TRUE
